@@ -33,9 +33,7 @@ use core::convert::TryInto;
 pub enum Timestamp {
     WholeSeconds(i64),
     FractionalSeconds(f64),
-}
-
-«use crate::vprelude::*;
+}«use crate::vprelude::*;
 use crate::common::{regp_of, regp_cv, wf_regp, axiom_derived_clone_regp};
 pub open spec fn ts_of(v: Value) -> Option<Timestamp> {
     match v {
@@ -46,6 +44,7 @@ pub open spec fn ts_of(v: Value) -> Option<Timestamp> {
 }
 pub open spec fn ts_cv(t: Timestamp) -> CV { match t { Timestamp::WholeSeconds(i) => CV::Int(i as int), Timestamp::FractionalSeconds(f) => CV::Float(f) } }
 »
+
 impl AsCborValue for Timestamp {«
     open spec fn dec_rel(value: Value, r: crate::Result<Self>) -> bool {
         match ts_of(value) {
@@ -104,9 +103,7 @@ const AUD: ClaimName = ClaimName::Assigned(iana::CwtClaimName::Aud);
 const EXP: ClaimName = ClaimName::Assigned(iana::CwtClaimName::Exp);
 const NBF: ClaimName = ClaimName::Assigned(iana::CwtClaimName::Nbf);
 const IAT: ClaimName = ClaimName::Assigned(iana::CwtClaimName::Iat);
-const CTI: ClaimName = ClaimName::Assigned(iana::CwtClaimName::Cti);
-
-«pub open spec fn cn_of(v: Value) -> Option<ClaimName> { regp_of::<iana::CwtClaimName>(v) }
+const CTI: ClaimName = ClaimName::Assigned(iana::CwtClaimName::Cti);«pub open spec fn cn_of(v: Value) -> Option<ClaimName> { regp_of::<iana::CwtClaimName>(v) }
 pub open spec fn cn(c: iana::CwtClaimName) -> ClaimName { ClaimName::Assigned(c) }
 pub open spec fn is_typed_claim(n: ClaimName) -> bool {
     n == cn(iana::CwtClaimName::Iss) || n == cn(iana::CwtClaimName::Sub) || n == cn(iana::CwtClaimName::Aud) || n == cn(iana::CwtClaimName::Exp)
@@ -198,8 +195,7 @@ pub proof fn lemma_claims_inv_step(cp: ClaimsSet, c: ClaimsSet, m: Seq<(Value, V
         if cn_of(m[i].0) == Some(l) { assert(has_claim(m, n, l)); }
     }
 }
-»
-«// ---- what a claims set encodes to
+»«// ---- what a claims set encodes to
 pub open spec fn claim_present(c: ClaimsSet, k: int) -> bool {
     if k == 1 { c.issuer is Some } else if k == 2 { c.subject is Some } else if k == 3 { c.audience is Some } else if k == 4 { c.expiration_time is Some }
     else if k == 5 { c.not_before is Some } else if k == 6 { c.issued_at is Some } else if k == 7 { c.cwt_id is Some } else { false }
@@ -246,6 +242,7 @@ pub proof fn lemma_claims_rest_empty(r: Seq<(ClaimName, Value)>)
     ensures claims_rest_entries(r.subrange(0, 0)) == Seq::<(CV, CV)>::empty(), r.subrange(0, r.len() as int) == r,
 { reveal(claims_rest_entries); assert(claims_rest_entries(r.subrange(0, 0)) =~= Seq::<(CV, CV)>::empty()); assert(r.subrange(0, r.len() as int) =~= r); }
 »
+
 impl AsCborValue for ClaimsSet {«
     // KNOWN FINDING (C12 encode): no duplicate check here; encoding always succeeds (pinned by cwt::tests::test_cwt_dup_claim)
     open spec fn enc_rel(self, r: crate::Result<Value>) -> bool { r matches Ok(v) && vv(v) == claims_cv(self) }
